@@ -7,6 +7,7 @@ import (
 	"os"
 	"path/filepath"
 	"strconv"
+	"syscall"
 )
 
 func main() {
@@ -74,6 +75,9 @@ func main() {
 	case "run":
 		os.Exit(orchestrate(env, self, *only))
 	case "worker":
+		// address-space limit: runaway allocation ends this worker only (classified as inconclusive)
+		lim := uint64(4) << 30
+		syscall.Setrlimit(syscall.RLIMIT_AS, &syscall.Rlimit{Cur: lim, Max: lim})
 		installWatchdog()
 		runWorker(env, *from, *to, *journal, *out)
 	default:
